@@ -1,6 +1,10 @@
 import VlsModel.Model.KVV
 import VlsModel.Lemmas.Hmac
 import VlsModel.Gen.KvvBytesFn
+import VlsModel.Gen.FnRedb
+import VlsModel.Lemmas.KVV
+import VlsModel.Lemmas.SmapSorted
+import VlsModel.Lemmas.KVVRedb
 /-
 C16 — the on-disk record format of the redb store, the pure part around the redb calls
 (`vls-persist/src/kvv/redb.rs`: `RedbKVVStore::encode_vv` / `decode_vv`), regenerated from the current source on
@@ -10,10 +14,9 @@ The model `KVV.Redb` keeps records abstractly as `(version, value)` and compares
 the **encoded** byte strings (`existing.value() != &vv`), and `get` / `get_prefix` / the reopened store return
 `decode_vv` of what `encode_vv` wrote.  Both steps of the model are justified here:
 
-* `C16_gen_decode_encode`: what `encode_vv` produced decodes without panic to exactly the value written and to
-  `from_be_bytes (to_be_bytes version)` (the arithmetic identity `from_be_bytes ∘ to_be_bytes = id` on `u64` is not
-  proved here — the proof attempt timed out — it is covered by `C16_gen_encode_inj` for the comparison and by the
-  real-file harness for reads);
+* `C16_gen_decode_encode`: what `encode_vv` produced for a `u64` version decodes to exactly that version and value
+  (`fromBe8_beBytes8`: `from_be_bytes ∘ to_be_bytes = id` on `u64`), so reads, and the version cache rebuilt by
+  `new_store` on reopen, see what was written;
 * `C16_gen_encode_inj`: two encodings are equal only for equal version and value (so the same-version content
   comparison on encodings is the comparison on records);
 * `C16_gen_decode_vv` also states when `decode_vv` panics (a table entry shorter than 8 bytes — never written by
@@ -30,6 +33,16 @@ theorem beBytes8_eq (n : Nat) : Hm.beBytes8 n = Hmac.be64 n := by
 
 theorem beBytes8_length (n : Nat) : (Hm.beBytes8 n).length = 8 := by
   simp [Hm.beBytes8]
+
+theorem byte_toNat (a : Nat) : (UInt8.ofNat (a % 256)).toNat = a % 256 := by
+  simp [UInt8.toNat_ofNat']
+
+/-- `u64::from_be_bytes(v.to_be_bytes()) = v` -/
+theorem fromBe8_beBytes8 (n : Nat) (h : n ≤ U64MAX) : Hm.fromBe8 (Hm.beBytes8 n) = n := by
+  have h' : n < 18446744073709551616 := by unfold U64MAX at h; omega
+  rw [beBytes8_eq]
+  simp only [Hm.fromBe8, Hmac.be64, List.foldl_cons, List.foldl_nil, byte_toNat]
+  omega
 
 /-- `encode_vv` = `version.to_be_bytes() ‖ value`; the capacity computation `value.len() + 8` is the only partial
     step (overflow of `usize`, impossible for a real vector) -/
@@ -48,8 +61,8 @@ theorem C16_gen_decode_vv (b : Bytes) :
   · simp [Hm.slice, h, bind, Except.bind, Rs.panic]
 
 /-- a record written by `encode_vv` reads back as exactly the version and value written -/
-theorem C16_gen_decode_encode (v : Nat) (x : Bytes) :
-    Redb.RedbKVVStore.decode_vv (Hm.beBytes8 v ++ x) = .ok (Hm.fromBe8 (Hm.beBytes8 v), x) := by
+theorem C16_gen_decode_encode (v : Nat) (x : Bytes) (hv : v ≤ U64MAX) :
+    Redb.RedbKVVStore.decode_vv (Hm.beBytes8 v ++ x) = .ok (v, x) := by
   rw [C16_gen_decode_vv]
   have hl : 8 ≤ (Hm.beBytes8 v ++ x).length := by simp [beBytes8_length]
   have ht : List.take 8 (Hm.beBytes8 v ++ x) = Hm.beBytes8 v := by
@@ -58,7 +71,7 @@ theorem C16_gen_decode_encode (v : Nat) (x : Bytes) :
   have hd : List.drop 8 (Hm.beBytes8 v ++ x) = x := by
     have := List.drop_append (l₁ := Hm.beBytes8 v) (l₂ := x) (i := 0)
     simpa [beBytes8_length] using this
-  simp only [hl, if_true, ht, hd]
+  simp only [hl, if_true, ht, hd, fromBe8_beBytes8 v hv]
 
 /-- the comparison of encodings (`existing.value() != &vv`) is the comparison of `(version, value)` -/
 theorem C16_gen_encode_inj (v v' : Nat) (x x' : Bytes) (hv : v ≤ U64MAX) (hv' : v' ≤ U64MAX)
@@ -71,9 +84,441 @@ theorem C16_gen_encode_inj (v v' : Nat) (x x' : Bytes) (hv : v ≤ U64MAX) (hv' 
 /-- non-vacuity: version 258 with a two-byte value satisfies the hypotheses -/
 example : Redb.RedbKVVStore.encode_vv 258 [7, 9] = .ok (Hm.beBytes8 258 ++ [7, 9]) :=
   C16_gen_encode_vv 258 [7, 9] (by simp [Rs.USIZE_MAX])
-example : Redb.RedbKVVStore.decode_vv (Hm.beBytes8 258 ++ [7, 9]) = .ok (Hm.fromBe8 (Hm.beBytes8 258), [7, 9]) :=
-  C16_gen_decode_encode 258 [7, 9]
+example : Redb.RedbKVVStore.decode_vv (Hm.beBytes8 258 ++ [7, 9]) = .ok (258, [7, 9]) :=
+  C16_gen_decode_encode 258 [7, 9] (by unfold U64MAX; omega)
 example : Redb.RedbKVVStore.decode_vv [0, 0, 0] = .error .panic := by
   rw [C16_gen_decode_vv]; simp
+
+/-! ## The version bookkeeping of `RedbKVVStore::put_with_version` / `put_batch` (round 8)
+
+`translate/x_redb.py` rewrites the redb idioms of the two functions into operations on a plain map (the committed table;
+a transaction is a private copy that `commit` publishes) and hands the result to rs2lean (`Gen/FnRedb.lean`).  The
+hand-written model `KVV.Redb` (table of abstract records + separately cached versions) is proved to simulate the generated
+functions for any injective key naming `f` and any record encoding `enc` that is injective on `u64` versions
+(`C16_gen_encode_inj` for the generated `encode_vv`). -/
+
+open VlsModel.Gen.FnRedb (RedbKVVStore)
+
+/-- the record encoding is injective on `u64` versions -/
+def EncInj (enc : Nat → List Nat → List Nat) : Prop :=
+  ∀ v x v' x', v ≤ U64MAX → v' ≤ U64MAX → enc v x = enc v' x' → v = v' ∧ x = x'
+
+/-- the code's committed table and version cache against the model's -/
+structure SimR (f : Key → String) (enc : Nat → List Nat → List Nat) (c : RedbKVVStore) (s : Redb) : Prop where
+  tab : ∀ k, Rs.smapGet c.db (f k) = (lookup s.tab k).map (fun r => enc r.1 r.2)
+  cache : ∀ k, Rs.smapGet c.versions (f k) = lookup s.cache k
+  bound : ∀ k r, lookup s.tab k = some r → r.1 ≤ U64MAX
+
+def AgreeR (f : Key → String) (enc : Nat → List Nat → List Nat) (r : Rs.M RedbKVVStore) (m : Redb × Res) : Prop :=
+  match r, m.2 with
+  | .ok c', .ok => SimR f enc c' m.1
+  | .error (.err tag), .mismatch => tag = "Error::VersionMismatch"
+  | .error .panic, .panic => True
+  | _, _ => False
+
+theorem smap_insert_sim {α β : Type} (f : Key → String) (hf : ∀ a b, f a = f b → a = b) (g : α → β)
+    (m : List (String × β)) (t : AL α) (h : ∀ k, Rs.smapGet m (f k) = (lookup t k).map g) (k : Key) (a : α) :
+    ∀ k', Rs.smapGet (Rs.smapInsert m (f k) (g a)) (f k') = (lookup (insert t k a) k').map g := by
+  intro k'
+  simp only [Rs.smapGet_insert, lookup_insert, h k']
+  by_cases e : k = k'
+  · simp [e]
+  · have : ¬ f k = f k' := fun he => e (hf _ _ he)
+    simp [e, this]
+
+theorem smap_insert_simId {α : Type} (f : Key → String) (hf : ∀ a b, f a = f b → a = b)
+    (m : List (String × α)) (t : AL α) (h : ∀ k, Rs.smapGet m (f k) = lookup t k) (k : Key) (a : α) :
+    ∀ k', Rs.smapGet (Rs.smapInsert m (f k) a) (f k') = lookup (insert t k a) k' := by
+  have := smap_insert_sim f hf (fun x : α => x) m t (by intro k; simp [h k]) k a
+  intro k'; simpa using this k'
+
+theorem bound_insert (t : Tab) (hb : ∀ k r, lookup t k = some r → r.1 ≤ U64MAX) (k : Key) (v : Nat) (x : Val)
+    (hv : v ≤ U64MAX) : ∀ k' r, lookup (insert t k (v, x)) k' = some r → r.1 ≤ U64MAX := by
+  intro k' r hr
+  rw [lookup_insert] at hr
+  by_cases e : k = k'
+  · simp [e] at hr; subst hr; exact hv
+  · simp [e] at hr; exact hb k' r hr
+
+/-- `put_with_version`: version read from the cache, content compared on the encodings read from the table (panic
+    when a cached key is missing from the table), both the table and the cache written on acceptance -/
+theorem C16_gen_redb_put_with_version (f : Key → String) (hf : ∀ a b, f a = f b → a = b)
+    (enc : Nat → List Nat → List Nat) (henc : EncInj enc)
+    (c : RedbKVVStore) (s : Redb) (h : SimR f enc c s) (k : Key) (v : Nat) (x : Val) (hv : v ≤ U64MAX) :
+    AgreeR f enc (c.put_with_version enc (f k) v x) (Redb.putV s k v x) := by
+  have hins : SimR f enc { c with db := Rs.smapInsert c.db (f k) (enc v x),
+                                  versions := Rs.smapInsert c.versions (f k) v }
+      { tab := insert s.tab k (v, x), cache := insert s.cache k v } :=
+    ⟨smap_insert_sim f hf (fun r : Rec => enc r.1 r.2) c.db s.tab h.tab k (v, x),
+     smap_insert_simId f hf c.versions s.cache h.cache k v, bound_insert s.tab h.bound k v x hv⟩
+  unfold RedbKVVStore.put_with_version Redb.putV
+  rw [h.cache k]
+  cases hl : lookup s.cache k with
+  | none => simpa [AgreeR] using hins
+  | some v0 =>
+    by_cases h1 : v < v0
+    · simp [AgreeR, h1, Rs.fail]
+    · by_cases h2 : v = v0
+      · subst h2
+        simp only [h1, decide_false, Bool.false_eq_true, if_false, beq_self_eq_true, if_true, h.tab k]
+        cases ht : lookup s.tab k with
+        | none => simp [AgreeR, Rs.unwrap, Rs.panic, bind, Except.bind]
+        | some r =>
+          obtain ⟨v1, x1⟩ := r
+          have hb := h.bound k (v1, x1) ht
+          by_cases he : (v1, x1) = (v, x)
+          · simp only [Prod.mk.injEq] at he
+            obtain ⟨e1, e2⟩ := he
+            subst e1; subst e2
+            simp [AgreeR, Rs.unwrap, bind, Except.bind, pure, Except.pure]
+            exact h
+          · have hne : enc v1 x1 ≠ enc v x := by
+              intro hq
+              have := henc v1 x1 v x hb hv hq
+              exact he (by simp [this.1, this.2])
+            simp [AgreeR, Rs.unwrap, bind, Except.bind, pure, Except.pure, hne, he, Rs.fail]
+      · simp only [h1, h2, decide_false, if_false, Bool.false_eq_true, beq_iff_eq]
+        simpa [AgreeR] using hins
+
+/-- `get_version` answers from the **cache** -/
+theorem C16_gen_redb_get_version (f : Key → String) (enc : Nat → List Nat → List Nat)
+    (c : RedbKVVStore) (s : Redb) (h : SimR f enc c s) (k : Key) :
+    c.get_version (f k) = .ok (lookup s.cache k) := by
+  simp [RedbKVVStore.get_version, h.cache k]
+
+/-- `put`: next version from the **cache** (`v + 1`, overflow at `u64::MAX`; `0` for a key not cached), then
+    `put_with_version` -/
+theorem C16_gen_redb_put (f : Key → String) (hf : ∀ a b, f a = f b → a = b)
+    (enc : Nat → List Nat → List Nat) (henc : EncInj enc)
+    (c : RedbKVVStore) (s : Redb) (h : SimR f enc c s) (k : Key) (x : Val) :
+    match c.put enc (f k) x, (Redb.put s k x).2 with
+    | .ok c', .ok => SimR f enc c' (Redb.put s k x).1
+    | .error (.err tag), .mismatch => tag = "Error::VersionMismatch"
+    | .error .panic, .panic => True
+    | .error .overflow, .panic => True
+    | _, _ => False := by
+  unfold RedbKVVStore.put Redb.put
+  rw [h.cache k]
+  cases hl : lookup s.cache k with
+  | none =>
+    simp only [nextVer, Rs.pure_eq, Rs.bind_ok, Option.getD]
+    have := C16_gen_redb_put_with_version f hf enc henc c s h k 0 x (by simp [U64MAX])
+    unfold AgreeR at this
+    revert this
+    cases c.put_with_version enc (f k) 0 x <;> cases (Redb.putV s k 0 x).2 <;> simp
+    all_goals (rename_i e; cases e <;> simp)
+  | some v0 =>
+    simp only [nextVer, Rs.uadd, U64MAX, Rs.U64_MAX]
+    by_cases hv : v0 < 18446744073709551615
+    · have hv' : v0 + 1 ≤ 18446744073709551615 := hv
+      simp only [hv, hv', if_true, Rs.pure_eq, Rs.bind_ok, Option.getD]
+      have := C16_gen_redb_put_with_version f hf enc henc c s h k (v0 + 1) x (by simp [U64MAX]; omega)
+      unfold AgreeR at this
+      revert this
+      cases c.put_with_version enc (f k) (v0 + 1) x <;> cases (Redb.putV s k (v0 + 1) x).2 <;> simp
+      all_goals (rename_i e; cases e <;> simp)
+    · have hv' : ¬ v0 + 1 ≤ 18446744073709551615 := by omega
+      simp [hv, hv', Rs.overflow, bind, Except.bind]
+
+/-- `new_store` on an existing file ("load the current versions"): the cache it builds from the committed table is the
+    model's `Redb.rebuild` (= the versions of the table), for any decoder that inverts the encoding on `u64` versions
+    (`C16_gen_decode_encode` for the generated `decode_vv`/`encode_vv`) -/
+theorem C16_gen_redb_load_versions (f : Key → String) (enc : Nat → List Nat → List Nat)
+    (dec : List Nat → Nat × List Nat) (hdec : ∀ v x, v ≤ U64MAX → (dec (enc v x)).1 = v)
+    (c : RedbKVVStore) (s : Redb) (h : SimR f enc c s) (hs : Rs.SSorted c.db) (k : Key) :
+    Rs.smapGet (RedbKVVStore.load_versions dec c.db) (f k) = lookup (Redb.rebuild s.tab) k := by
+  have hfold : RedbKVVStore.load_versions dec c.db
+      = c.db.foldl (fun m e => Rs.smapInsert m e.1 ((fun vv => (dec vv).1) e.2)) [] := by
+    unfold RedbKVVStore.load_versions
+    congr 1
+  rw [hfold, Rs.smapGet_insertAll_map_sorted (fun vv => (dec vv).1) c.db [] (f k) hs, h.tab k, lookup_rebuild]
+  cases ht : lookup s.tab k with
+  | none => simp [Rs.smapGet]
+  | some r =>
+    obtain ⟨v, x⟩ := r
+    simp [hdec v x (h.bound k (v, x) ht)]
+
+/-- reopening: a store handle built on the same committed table with the freshly loaded cache is related to the
+    model's `Redb.reopen` -/
+theorem C16_gen_redb_reopen (f : Key → String) (enc : Nat → List Nat → List Nat)
+    (dec : List Nat → Nat × List Nat) (hdec : ∀ v x, v ≤ U64MAX → (dec (enc v x)).1 = v)
+    (c : RedbKVVStore) (s : Redb) (h : SimR f enc c s) (hs : Rs.SSorted c.db) :
+    SimR f enc { c with versions := RedbKVVStore.load_versions dec c.db } (Redb.reopen s) :=
+  ⟨h.tab, fun k => C16_gen_redb_load_versions f enc dec hdec c s h hs k, h.bound⟩
+
+/-- the committed table of the code stays sorted by key (what `load_versions` iterates over) -/
+theorem C16_gen_redb_put_with_version_sorted (enc : Nat → List Nat → List Nat) (c c' : RedbKVVStore)
+    (key : String) (v : Nat) (x : Val) (hs : Rs.SSorted c.db)
+    (h : c.put_with_version enc key v x = .ok c') : Rs.SSorted c'.db := by
+  unfold RedbKVVStore.put_with_version at h
+  have hi := Rs.ssorted_insert key (enc v x) hs
+  split at h
+  · split at h
+    · simp [Rs.fail] at h
+    · split at h
+      · cases hg : Rs.smapGet c.db key with
+        | none => simp [hg, Rs.unwrap, Rs.panic, bind, Except.bind] at h
+        | some e =>
+          simp only [hg, Rs.unwrap, Rs.pure_eq, Rs.bind_ok] at h
+          split at h
+          · simp [Rs.fail] at h
+          · simp at h; subst h; exact hs
+      · simp at h; subst h; exact hi
+  · simp at h; subst h; exact hi
+
+/-! ### `put_batch` -/
+
+def toCodeR (f : Key → String) (es : List (Key × Rec)) : List (String × (Nat × List Nat)) :=
+  es.map (fun e => (f e.1, e.2))
+
+abbrev AccC := Bool × List (String × List Nat) × List (String × Nat)
+
+/-- the body of the loop of the generated `put_batch` -/
+def batchBody (enc : Nat → List Nat → List Nat) (self : RedbKVVStore) :
+    AccC → String × (Nat × List Nat) → Rs.M (Rs.Flow AccC Empty) :=
+  fun (found_version_mismatch, tx, staged_versions) kvv => do
+        let (key, (version, value)) := (kvv.1, (kvv.2.1, kvv.2.2))
+        let vv := (enc version value)
+        match (Option.or (Rs.smapGet staged_versions key) (Rs.smapGet self.versions key)) with
+        | some v =>
+            if (decide (version < v)) then
+              let found_version_mismatch := true
+              let tx := (Rs.smapInsert tx key vv)
+              let staged_versions := (Rs.smapInsert staged_versions key version)
+              pure (.next (found_version_mismatch, tx, staged_versions))
+            else
+              if (version == v) then
+                let existing ← Rs.unwrap (Rs.smapGet tx key)
+                let found_version_mismatch := (if (existing != vv) then (let found_version_mismatch := true; found_version_mismatch) else found_version_mismatch)
+                pure (.next (found_version_mismatch, tx, staged_versions))
+              else
+                let tx := (Rs.smapInsert tx key vv)
+                let staged_versions := (Rs.smapInsert staged_versions key version)
+                pure (.next (found_version_mismatch, tx, staged_versions))
+        | _ =>
+            let tx := (Rs.smapInsert tx key vv)
+            let staged_versions := (Rs.smapInsert staged_versions key version)
+            pure (.next (found_version_mismatch, tx, staged_versions))
+
+/-- loop state of the code against the loop state of the model (`Redb.Acc`), while the model has not panicked -/
+structure RelB (f : Key → String) (enc : Nat → List Nat → List Nat) (acc : AccC) (a : Redb.Acc) : Prop where
+  bad : acc.1 = a.bad
+  tab : ∀ k, Rs.smapGet acc.2.1 (f k) = (lookup a.tab k).map (fun r => enc r.1 r.2)
+  stg : ∀ k, Rs.smapGet acc.2.2 (f k) = lookup a.staged k
+  bound : ∀ k r, lookup a.tab k = some r → r.1 ≤ U64MAX
+  ss : Rs.SSorted acc.2.2
+  ms : Sorted a.staged
+  np : a.panicked = false
+
+theorem batchStep_panicked (cache : AL Nat) (a : Redb.Acc) (e : Key × Rec) (h : a.panicked = true) :
+    (Redb.batchStep cache a e).panicked = true := by
+  unfold Redb.batchStep
+  split
+  · exact h
+  · split
+    · exact h
+    · split
+      · split
+        · rfl
+        · split <;> simp [h]
+      · exact h
+
+theorem foldl_panicked (cache : AL Nat) (es : List (Key × Rec)) (a : Redb.Acc) (h : a.panicked = true) :
+    (es.foldl (Redb.batchStep cache) a).panicked = true := by
+  induction es generalizing a with
+  | nil => exact h
+  | cons e es ih => exact ih _ (batchStep_panicked cache a e h)
+
+/-- one iteration -/
+theorem batchBody_step (f : Key → String) (hf : ∀ a b, f a = f b → a = b)
+    (enc : Nat → List Nat → List Nat) (henc : EncInj enc)
+    (c : RedbKVVStore) (s : Redb) (h : SimR f enc c s) (acc : AccC) (a : Redb.Acc) (hr : RelB f enc acc a)
+    (e : Key × Rec) (hv : e.2.1 ≤ U64MAX) :
+    match batchBody enc c acc (f e.1, e.2), Redb.batchStep s.cache a e with
+    | .ok (.next acc'), a' => RelB f enc acc' a'
+    | .error .panic, a' => a'.panicked = true
+    | _, _ => False := by
+  obtain ⟨k, v, x⟩ := e
+  obtain ⟨fm, tx, sv⟩ := acc
+  have hbad : fm = a.bad := hr.bad
+  have hol : Option.or (Rs.smapGet sv (f k)) (Rs.smapGet c.versions (f k)) = olookup a.staged s.cache k := by
+    have h1 := hr.stg k
+    simp only at h1
+    rw [h1, h.cache k]; unfold olookup; cases lookup a.staged k <;> simp [Option.or]
+  have hins : ∀ b : Bool, b = a.bad ∨ b = true →
+      RelB f enc (b, Rs.smapInsert tx (f k) (enc v x), Rs.smapInsert sv (f k) v)
+        { a with bad := b, tab := insert a.tab k (v, x), staged := insert a.staged k v } := by
+    intro b _
+    exact ⟨rfl, smap_insert_sim f hf (fun r : Rec => enc r.1 r.2) tx a.tab hr.tab k (v, x),
+      smap_insert_simId f hf sv a.staged hr.stg k v, bound_insert a.tab hr.bound k v x hv,
+      Rs.ssorted_insert _ _ hr.ss, sorted_insert _ _ hr.ms, hr.np⟩
+  simp only [batchBody, Redb.batchStep, hol]
+  cases hl : olookup a.staged s.cache k with
+  | none =>
+    simp only [pure, Except.pure]
+    have := hins fm (Or.inl hbad)
+    rw [hbad] at this ⊢
+    simpa using this
+  | some v0 =>
+    by_cases h1 : v < v0
+    · simp only [h1, decide_true, if_true, pure, Except.pure]
+      exact hins true (Or.inr rfl)
+    · by_cases h2 : v = v0
+      · subst h2
+        have htab := hr.tab k
+        simp only at htab
+        simp only [h1, decide_false, Bool.false_eq_true, if_false, beq_self_eq_true, if_true, htab]
+        cases ht : lookup a.tab k with
+        | none => simp [Rs.unwrap, Rs.panic, bind, Except.bind]
+        | some r =>
+          obtain ⟨v1, x1⟩ := r
+          have hb := hr.bound k (v1, x1) ht
+          by_cases he : (v1, x1) = (v, x)
+          · simp only [Prod.mk.injEq] at he
+            obtain ⟨e1, e2⟩ := he
+            subst e1; subst e2
+            simp [Rs.unwrap, bind, Except.bind, pure, Except.pure]
+            exact ⟨hbad, hr.tab, hr.stg, hr.bound, hr.ss, hr.ms, hr.np⟩
+          · have hne : enc v1 x1 ≠ enc v x := by
+              intro hq
+              have := henc v1 x1 v x hb hv hq
+              exact he (by simp [this.1, this.2])
+            simp [Rs.unwrap, bind, Except.bind, pure, Except.pure, hne, he]
+            exact ⟨rfl, hr.tab, hr.stg, hr.bound, hr.ss, hr.ms, hr.np⟩
+      · simp only [h1, h2, decide_false, if_false, Bool.false_eq_true, beq_iff_eq, pure, Except.pure]
+        have := hins fm (Or.inl hbad)
+        rw [hbad] at this ⊢
+        simpa using this
+
+theorem loopB_cons {α σ : Type} (x : α) (xs : List α) (s : σ) (f : σ → α → Rs.M (Rs.Flow σ Empty)) :
+    Rs.loopB (x :: xs) s f = (f s x >>= fun fl =>
+      match fl with
+      | .next s' => Rs.loopB xs s' f
+      | .brk s' => pure s'
+      | .ret r => nomatch r) := by
+  unfold Rs.loopB
+  rw [Rs.loopM]
+  cases f s x with
+  | error e => rfl
+  | ok fl =>
+    cases fl with
+    | next s' => rfl
+    | brk s' => rfl
+    | ret r => exact nomatch r
+
+theorem batch_loop (f : Key → String) (hf : ∀ a b, f a = f b → a = b)
+    (enc : Nat → List Nat → List Nat) (henc : EncInj enc)
+    (c : RedbKVVStore) (s : Redb) (h : SimR f enc c s) (es : List (Key × Rec)) (hv : ∀ e ∈ es, e.2.1 ≤ U64MAX) :
+    ∀ (acc : AccC) (a : Redb.Acc), RelB f enc acc a →
+      match Rs.loopB (toCodeR f es) acc (batchBody enc c), es.foldl (Redb.batchStep s.cache) a with
+      | .ok acc', a' => RelB f enc acc' a'
+      | .error .panic, a' => a'.panicked = true
+      | _, _ => False := by
+  induction es with
+  | nil =>
+    intro acc a hr
+    simpa [toCodeR, Rs.loopB, Rs.loopM, bind, Except.bind, pure, Except.pure] using hr
+  | cons e es ih =>
+    intro acc a hr
+    have hstep := batchBody_step f hf enc henc c s h acc a hr e (hv e (by simp))
+    simp only [toCodeR, List.map_cons, List.foldl_cons, loopB_cons]
+    cases hb : batchBody enc c acc (f e.1, e.2) with
+    | error err =>
+      rw [hb] at hstep
+      cases err with
+      | panic =>
+        simp only [bind, Except.bind]
+        exact foldl_panicked s.cache es _ hstep
+      | overflow => simp at hstep
+      | err t => simp at hstep
+    | ok fl =>
+      rw [hb] at hstep
+      cases fl with
+      | next acc' =>
+        simp only [bind, Except.bind]
+        exact ih (fun e' he' => hv e' (by simp [he'])) acc' _ hstep
+      | brk _ => simp at hstep
+      | ret r => exact nomatch r
+
+theorem versions_fold (c : RedbKVVStore) (sv : List (String × Nat)) :
+    List.foldl (fun (self : RedbKVVStore) (x : String × Nat) =>
+        { self with versions := Rs.smapInsert self.versions x.1 x.2 }) c sv
+      = { c with versions := sv.foldl (fun m e => Rs.smapInsert m e.1 e.2) c.versions } := by
+  induction sv generalizing c with
+  | nil => rfl
+  | cons e sv ih => simp only [List.foldl_cons]; rw [ih]
+
+/-- `put_batch`: the loop of the code is the model's `Redb.batchStep` (version against the version staged earlier in
+    the batch, else the **cache**; content against the **staged** table; lower-version entries still staged; a cached key
+    missing from the table panics), a refused batch publishes nothing (`abort`), an accepted one publishes the staged
+    table and then applies `staged_versions` to the cache -/
+theorem C16_gen_redb_put_batch (f : Key → String) (hf : ∀ a b, f a = f b → a = b)
+    (enc : Nat → List Nat → List Nat) (henc : EncInj enc)
+    (c : RedbKVVStore) (s : Redb) (h : SimR f enc c s) (es : List (Key × Rec)) (hv : ∀ e ∈ es, e.2.1 ≤ U64MAX) :
+    AgreeR f enc (c.put_batch enc (toCodeR f es)) (Redb.batch s es) := by
+  have hbody : c.put_batch enc (toCodeR f es) = (do
+      let r ← Rs.loopB (toCodeR f es) (false, c.db, []) (batchBody enc c)
+      if r.1 then Rs.fail "Error::VersionMismatch"
+      else pure (List.foldl (fun (self : RedbKVVStore) (x : String × Nat) =>
+        { self with versions := Rs.smapInsert self.versions x.1 x.2 }) { c with db := r.2.1 } r.2.2)) := rfl
+  rw [hbody]
+  have h0 : RelB f enc (false, c.db, []) ⟨s.tab, [], false, false⟩ :=
+    ⟨rfl, h.tab, by intro k; simp [Rs.smapGet, lookup], h.bound, trivial, trivial, rfl⟩
+  have hl := batch_loop f hf enc henc c s h es hv _ _ h0
+  unfold Redb.batch Redb.batchLoop
+  generalize es.foldl (Redb.batchStep s.cache) ⟨s.tab, [], false, false⟩ = a at hl ⊢
+  cases hr : Rs.loopB (toCodeR f es) (false, c.db, []) (batchBody enc c) with
+  | error err =>
+    rw [hr] at hl
+    cases err with
+    | panic => simp only at hl; simp [hl, AgreeR, bind, Except.bind]
+    | overflow => simp at hl
+    | err t => simp at hl
+  | ok acc =>
+    rw [hr] at hl
+    simp only at hl
+    obtain ⟨fm, tx, sv⟩ := acc
+    have hbad : fm = a.bad := hl.bad
+    simp only [bind, Except.bind, hl.np, Bool.false_eq_true, if_false]
+    by_cases hb : a.bad = true
+    · simp [hbad, hb, AgreeR, Rs.fail]
+    · have hb' : a.bad = false := by simpa using hb
+      simp only [hbad, hb', Bool.false_eq_true, if_false, pure, Except.pure, AgreeR, versions_fold]
+      refine ⟨hl.tab, ?_, hl.bound⟩
+      intro k
+      simp only
+      rw [Rs.smapGet_insertAll_sorted sv c.versions (f k) hl.ss, lookup_insertAll_sorted a.staged s.cache k hl.ms]
+      have := hl.stg k
+      simp only at this
+      rw [this, h.cache k]
+      cases lookup a.staged k <;> rfl
+
+theorem map_toNat_inj : ∀ (a b : List UInt8), a.map UInt8.toNat = b.map UInt8.toNat → a = b := by
+  intro a
+  induction a with
+  | nil => intro b h; cases b <;> simp_all
+  | cons x xs ih =>
+    intro b h
+    cases b with
+    | nil => simp at h
+    | cons y ys =>
+      simp only [List.map_cons, List.cons.injEq] at h
+      rw [UInt8.toNat_inj.mp h.1, ih ys h.2]
+
+/-- the generated `encode_vv` (Gen/KvvBytesFn.lean) is such an encoding (bytes as `Nat` lists, as rs2lean represents
+    `Vec<u8>`) -/
+theorem encInj_of_bytes (enc : Nat → List Nat → List Nat)
+    (hgen : ∀ v (x : List Nat), enc v x = (Hm.beBytes8 v).map UInt8.toNat ++ x) : EncInj enc := by
+  intro v x v' x' hv hv' he
+  rw [hgen, hgen] at he
+  obtain ⟨h1, h2⟩ := List.append_inj he (by simp [beBytes8_length])
+  have h3 : Hm.beBytes8 v = Hm.beBytes8 v' := map_toNat_inj _ _ h1
+  have := C16_gen_encode_inj v v' [] [] hv hv' (by simp [h3])
+  exact ⟨this.1, h2⟩
+
+/-- non-vacuity: the empty stores are related, and a first write is accepted -/
+example (f : Key → String) (enc : Nat → List Nat → List Nat) : SimR f enc ⟨[], []⟩ Redb.empty :=
+  ⟨by intro k; simp [Rs.smapGet, lookup, Redb.empty], by intro k; simp [Rs.smapGet, lookup, Redb.empty],
+   by intro k r h; simp [lookup, Redb.empty] at h⟩
 
 end VlsModel.Props.C16Gen
